@@ -216,3 +216,7 @@ mod tests {
         });
     }
 }
+
+#[cfg(kani)]
+#[path = "/verif/kani/rten-generate/sampler.rs"]
+mod verif_kani;
